@@ -202,6 +202,22 @@ def builtin_cases():
     c.append(("p(X) :- arg(1,f(a,b),X).", "p(X)", ["a"], True))
     c.append(("p(X) :- arg(2,f(a,b),X).", "p(X)", ["b"], True))
     c.append(("p(X) :- arg(3,f(a,b),X).", "p(X)", [], True))
+    c.append(("p(X) :- arg(0,f(a,b),X).", "p(X)", [], True))          # argument positions start at 1
+    c.append(("p(X) :- arg(1,f(g(a)),X).", "p(X)", ["g(a)"], True))
+    c.append(("p :- arg(2,f(a,b),b).", "p", ["yes"], True))
+    c.append(("p :- arg(2,f(a,b),a).", "p", [], True))
+    c.append(("p(N,A) :- functor(1.5,N,A).", "p(N,A)", ["1.5,0"], True))
+    c.append(("p(T) :- functor(T,f,0).", "p(T)", ["f"], True))
+    # atom_number/2: text of an atom <-> number (quoted atoms are the only atoms that look like numbers)
+    c.append(("p(X) :- atom_number('12',X).", "p(X)", ["12"], True))
+    c.append(("p(X) :- atom_number('-7',X).", "p(X)", ["-7"], True))
+    c.append(("p(X) :- atom_number('1.5',X).", "p(X)", ["1.5"], True))
+    c.append(("p(X) :- atom_number(abc,X).", "p(X)", [], True))
+    c.append(("p :- atom_number('12',12).", "p", ["yes"], True))
+    c.append(("p :- atom_number('12',13).", "p", [], True))
+    c.append(("p :- atom_number('12',12.0).", "p", [], True))
+    c.append(("p(X) :- atom_number(X,12).", "p(X)", ["12"], True))
+    c.append(("p(X) :- atom_number(X,1.5).", "p(X)", ["1.5"], True))
     c.append(("p(L) :- f(a,b) =.. L.", "p(L)", ["[f, a, b]"], True))
     c.append(("p(L) :- foo =.. L.", "p(L)", ["[foo]"], True))
     c.append(("p(T) :- T =.. [g,1,2].", "p(T)", ["g(1,2)"], True))
